@@ -22,4 +22,6 @@ def run(ctx):
     # identifiers - prefixed class names included - are written by cssparser's identifier serialiser (shared with C17 / C08)
     obs += [o for o in cp.host_rules(ctx, 'C09') if re.search(r"\.only/detection", o["key"])]
     obs += [o for o in cp.int_rule(ctx, 'C09', writer_only=True) if "/ser/" in o["key"] or ".ser/" in o["key"]]
+    # the options are read-only while a sheet is compiled (wave 9; shared by C08, C09, C10, C17)
+    obs += cp.options_untouched_rule(ctx, 'C09')
     return obs
